@@ -49,7 +49,7 @@ Lemma lmu_loop_safe : forall ups i n km im max acc, 1 <= max -> List.length acc 
 Proof.
   induction ups as [|[key id] r IH]; intros i n km im max acc Hm Ha; cbn [lmu_loop].
   - eauto.
-  - destruct (negb (String.eqb km "") && negb (String.eqb im "") && str_ltb id im); [apply IH; assumption|].
+  - destruct (negb (lmu_behind key id km im)); [apply IH; assumption|].
     destruct (Nat.eqb (List.length acc) max) eqn:E.
     + apply Nat.eqb_eq in E. assert (N : acc <> []) by (intros ->; cbn in E; lia).
       destruct (rev_nonempty acc N) as [x [t R]]. rewrite R. eauto.
